@@ -24,7 +24,7 @@ T = {
          'translator + correspondence, reference interpreter'),
  'C06': ('Coq theorem: diagnostics strictly increasing and in bounds for every program without assertions/ordered choice (certificate per translated parser), every input; first-error position by K3 correspondence + Earley viable-prefix oracle',
          'translator + correspondence, viable-prefix oracle'),
- 'C07': ('translation validation (program and analysis) + definitional precedence-consistency oracle; theorems pending',
+ 'C07': ('translation validation (program and analysis) + definitional precedence-consistency oracle; Coq theorems for the binding-power table only (earlier branch strictly tighter, left unless declared right, one swap)',
          'translator + K2/K3 correspondence, precedence oracle'),
  'C08': ('Coq theorems: an abandoned alternative restores position, token, diagnostics, error state and the abstract tree state exactly, for every program/input/oracle/fuel; callback balance and value semantics by K3 correspondence + reference interpreter',
          'translator + correspondence, reference interpreter'),
@@ -56,7 +56,7 @@ T = {
 
 
 # properties whose Props file proves one clause only: the claimed level stays the level of the rest
-PARTIAL_THEOREMS = ('C16',)
+PARTIAL_THEOREMS = ('C07', 'C16')
 
 
 def level(pid):
